@@ -36,12 +36,18 @@ R = Rules(
         "assignments on a fresh Message are the same fact.  The peer's settings are followed as an object: a must-alias / "
         "nullness data-flow of self._remote_settings per signalling code decides which locals are the settings dictionary at a store, "
         "whether that dictionary is still the one the field holds at the normal exit (stores through an alias, or into a dictionary "
-        "that is published afterwards, are stores into the settings), and that the field is not None at the normal exit of a CSM."
+        "that is published afterwards, are stores into the settings), and that the field is not None at the normal exit of a CSM.  "
+        "Constructor arguments and attributes are tied together by evaluating Message.__init__ itself (C15.j): for every Message(...) "
+        "construction of the stream transport (Pong, Abort, CSM, Release, the decoded frame) the constructor is run by the path evaluator "
+        "in object mode on the arguments of that site (opaque symbols, defaults filled in, stores to self tracked as fields, `a or b` forked "
+        "on its value) and the code / token argument must be what the attribute read by _serialize and the dispatcher holds on every "
+        "feasible completing path, whatever deprecation shim or public / underscore spelling lies between."
     ),
     rule_text=(
         "piecewise tables from a path evaluator over a restricted statement language (intervals via DNF normal forms), "
         "bit-field and polynomial normal forms, reaching definitions on per-function CFGs, dominance / must-pass path rules, "
-        "exception-escape sets, finite-domain evaluation of dispatch guards over all 256 code values"
+        "exception-escape sets, finite-domain evaluation of dispatch guards over all 256 code values, symbolic evaluation of the "
+        "Message constructor per construction site (argument -> attribute)"
     ),
 )
 
@@ -50,6 +56,9 @@ TCP = "transports.tcp."
 def i_shared(ctx):
     from . import c02
     c02.e(ctx)
+
+
+i = i_shared  # every clause is callable as c15.<letter>(ctx)
 
 
 F_TCP = "aiocoap/transports/tcp.py"
@@ -1495,7 +1504,11 @@ def g(ctx):
             break
     ctx.ob("OptionNumber.is_critical tests bit 0 of the option number", crit_ok, cfi, cfi.node, construct="OptionNumber.is_critical", detail=crit_detail)
 
-    fi = prog.func("transports.rfc8323common.RFC8323Remote._process_signaling")
+    # named option numbers (class-level constants) are read as their values and a capture
+    # pattern `case x if g` as the match subject (exact rewrites, see _kit_c15.simplified)
+    fi, notes_ = K.simplified(prog, prog.func("transports.rfc8323common.RFC8323Remote._process_signaling"))
+    for n_ in notes_:
+        ctx.note("_process_signaling: %s" % n_)
     p = params(fi)
     ctx.need(len(p) == 1 and not writes_to_name(fi.node, p[0]), "_process_signaling(self, msg) signature changed")
     M = p[0]
@@ -1841,7 +1854,9 @@ def g(ctx):
                 ctx.ob("with a token manager attached every normal path forwards the error", pcfg.must_pass(n.id, allfw), pfi, n.ast)
 
     # our own CSM announces the limit the size gate enforces
-    ifi = prog.func("transports.rfc8323common.RFC8323Remote._send_initial_csm")
+    ifi, notes_ = K.simplified(prog, prog.func("transports.rfc8323common.RFC8323Remote._send_initial_csm"))
+    for n_ in notes_:
+        ctx.note("_send_initial_csm: %s" % n_)
     icfg = cfg_of(ifi)
     isends = [c_ for c_, _ in find("self._send_message($m)", ifi.node)]
     ctx.floor("_send_message sites in _send_initial_csm", len(isends), 1)
@@ -2164,6 +2179,204 @@ def h(ctx):
 
 
 # ---------------------------------------------------------------------------
+# C15.j  constructor arguments and the attributes the stream transport reads
+#
+# C15.b (reader), C15.f (Abort) and C15.g (Pong) read `Message(code=c, token=t)` /
+# `Message(_token=t)` as "this message has code c and token t"; _serialize and the
+# dispatcher read the *attributes* .code and .token.  The two meet in
+# Message.__init__: this clause evaluates the constructor, with the checker's own
+# path evaluator in object mode, for every Message(...) construction of the stream
+# transport modules (arguments as opaque symbols, defaults filled in) and requires
+# that on every feasible path that completes, the attribute holds the argument.
+# Nothing is assumed about how the constructor is written (deprecation shims,
+# public / underscore spellings, helper functions, conditional expressions,
+# `a or b`); what is compared is the final value of the attribute.
+
+STREAM_MODULES = ("aiocoap.transports.tcp", "aiocoap.transports.rfc8323common")
+# attribute read by _serialize / the dispatcher -> constructor arguments that claim it
+# (the public name and the library's underscore spelling, as C15.b/f/g read them)
+CTOR_CLAIMS = (("code", ("code", "_code")), ("token", ("token", "_token")))
+
+
+def _implied_empty(conds, sym):
+    """the path conditions say that the (bytes) symbol is empty: `not sym`,
+    `len(sym) == 0`, `len(sym) < 1`, ... in any polarity / operand order"""
+    N = Normalizer()
+    for t, pol in conds:
+        try:
+            conjs = _dnf_of_conds(N, [(t, pol)])
+        except (NormError, AnalysisError):
+            continue
+        try:
+            if conjs and all(_interval(conj, "len(%s)" % sym, truth_of=sym)[1] <= 0 for conj in conjs):
+                return True
+        except (NormError, AnalysisError, TypeError):
+            continue
+    return False
+
+
+def _holds_argument(prog, init, v, sym, conds, field, facts):
+    """True / False / None (cannot tell): on a path with conditions `conds` the
+    final value v of attribute `field` is the constructor argument `sym`.
+
+    Accepted as "the argument" (each implies that what _serialize writes and the
+    dispatcher compares is the argument's value):
+      * the symbol itself;
+      * for the code: IntEnumClass(sym) / int(sym) -- the member (or pseudo-member)
+        constructed from a value has that integer value, and the code is only ever
+        used as an integer (bytes((msg.code,)), comparisons, is_*() range tests);
+      * for the token: bytes(sym) of a bytes object;
+      * a constant c when the path conditions say sym == c (sym is None), when the
+        argument at the site is that constant, or -- tokens are bytes objects -- the
+        empty bytes constant when the conditions say that sym is empty / falsy."""
+    if v is None:
+        return False
+    if isinstance(v, ast.Name):
+        if v.id == sym:
+            return True
+        return None if v.id.startswith("UNKNOWN__") else False
+    if isinstance(v, ast.Constant):
+        if any(c == v.value and type(c) is type(v.value) for (c,) in K.implied_constant(conds, sym)):
+            return True
+        if sym in facts and facts[sym] == v.value and (isinstance(facts[sym], int) == isinstance(v.value, int)):
+            return True
+        if field == "token" and isinstance(v.value, bytes) and v.value == b"" and _implied_empty(conds, sym):
+            return True
+        return False
+    if isinstance(v, ast.Call) and len(v.args) == 1 and not v.keywords and chain(v.func):
+        q = prog.resolve_in_module(init.module, chain(v.func))
+        if (field == "code" and (q == "int" or "enum.IntEnum" in prog.mro(q))) or (field == "token" and q == "bytes"):
+            return _holds_argument(prog, init, v.args[0], sym, conds, field, facts)
+    mentions = any(isinstance(x, ast.Name) and x.id == sym for x in ast.walk(v))
+    if not mentions:
+        return None if any(isinstance(x, ast.Name) and x.id.startswith("UNKNOWN__") for x in ast.walk(v)) else False
+    if sym in facts:
+        # the argument is a known constant at this site: the checker's own evaluator decides
+        try:
+            got = norm.consteval(_subst(v, {sym: ast.Constant(value=facts[sym])}))
+        except NormError:
+            return None
+        return bool(got == facts[sym] and isinstance(got, int) == isinstance(facts[sym], int))
+    return None
+
+
+@R.clause("C15.j", "the code / token a message of the stream transport is constructed with (Pong, Abort, CSM, Release, every decoded frame) is what Message.__init__ leaves in the attribute _serialize writes and the dispatcher reads")
+def j(ctx):
+    prog = ctx.prog
+    mcls = prog.cls("message.Message")
+    init = prog.lookup_method(mcls.qn, "__init__")
+    ctx.need(init is not None and init.qn == mcls.qn + ".__init__", "Message has no __init__ of its own")
+    ctx.need(is_plain_sync(init), "Message.__init__ is not a plain function")
+    allp = params(init, skip_self=False)
+    ctx.need(bool(allp), "Message.__init__ has no receiver parameter")
+    me = allp[0]
+    ctx.need(not writes_to_name(init.node, me), "Message.__init__ rebinds its receiver")
+    # .code / .token are plain instance attributes: no descriptor of that name, no
+    # attribute hook between `self.x = v` and a later `msg.x`
+    for q in prog.mro(mcls.qn):
+        if not q.startswith("aiocoap."):
+            continue
+        ci = prog.cls(q[len("aiocoap."):])
+        for fld, _claims in CTOR_CLAIMS:
+            ctx.need(fld not in ci.methods and fld not in ci.attrs, "%s.%s is a class-level attribute / descriptor: what a store to it does is outside this clause" % (ci.qn, fld))
+        for hook in ("__setattr__", "__getattr__", "__getattribute__", "__slots__"):
+            ctx.need(hook not in ci.methods and hook not in ci.attrs, "%s defines %s" % (ci.qn, hook))
+
+    def effects(call):
+        f = call.func
+        if chain(f) and prog.resolve_in_module(init.module, chain(f)) == "warnings.warn":
+            return set()  # formats its arguments, stores nothing
+        if isinstance(f, ast.Attribute) and isinstance(f.value, ast.Name) and f.value.id == me:
+            return K.receiver_stores(prog, mcls.qn, f.attr)
+        if isinstance(f, ast.Name) and f.id in ("setattr", "delattr") and len(call.args) >= 2 and isinstance(call.args[0], ast.Name) and call.args[0].id == me \
+                and isinstance(call.args[1], ast.Constant) and isinstance(call.args[1].value, str) and not any(
+                    isinstance(x, ast.Name) and x.id == me for a_ in call.args[2:] for x in ast.walk(a_)):
+            return {call.args[1].value}
+        return None
+
+    sites = []
+    for fi in prog.funcs.values():
+        if fi.module.name in STREAM_MODULES:
+            for n in walk_with_lambdas(fi.node):
+                if isinstance(n, ast.Call) and _is_message_ctor(prog, fi, n):
+                    sites.append((fi, n))
+    ctx.note("Message constructions in the stream transport: %d" % len(sites))
+    checked = 0
+    open_ = []
+    for fi, call in sites:
+        what = "Message.__init__ for %s in %s" % (_txt(call), fi.short)
+        try:
+            env0, symbols, by_kw = K.bind_call(init.node, call, what=what)
+        except AnalysisError as ex:
+            open_.append(str(ex))  # decided last: the other sites are still evaluated
+            continue
+        claims = []
+        for fld, names in CTOR_CLAIMS:
+            ks = [k_ for k_ in names if k_ in by_kw]
+            if ks:
+                ctx.need(len(ks) == 1, "%s gives both spellings %s of one field" % (_txt(call), ks))
+                claims.append((fld, ks[0]))
+        if not claims:
+            continue
+        # what is known about the arguments at the site: constants, members of Code
+        cfg = cfg_of(fi)
+        ids = cfg.locate(call)
+        facts = {}
+        for s_, e_ in symbols.items():
+            r = _resolve_at(fi, cfg, e_, ids[0]) if ids else e_
+            cv = _code_member(prog, fi.module, r)
+            if cv is not None:
+                facts[s_] = cv
+            elif isinstance(r, ast.Constant):
+                facts[s_] = r.value
+        try:
+            paths = K.enumerate_paths(init.node, what=what, consts=_consts_of(prog, init), env0=env0, obj=me, effects=effects)
+        except AnalysisError as ex:
+            open_.append(str(ex))
+            continue
+        live = []
+        for p in paths:
+            if p.kind != "return":
+                continue  # the construction fails: no message
+            dead = False
+            for t, pol in p.conds:
+                tv = K.truth3(t, facts)
+                if tv is not None and tv != pol:
+                    dead = True
+            if not dead:
+                live.append(p)
+        if not live:
+            open_.append("%s: no feasible path completes" % what)
+            continue
+        back = {s_: e_ for s_, e_ in symbols.items()}
+        for fld, kw in claims:
+            sym = by_kw[kw]
+            bad = None
+            undecided = False
+            for p in live:
+                v = p.env.get("%s.%s" % (me, fld), p.env.get(me + ".*"))
+                r = _holds_argument(prog, init, v, sym, p.conds, fld, facts)
+                if r is None:
+                    undecided = True
+                    open_.append("%s: cannot tell whether %s is the argument %s" % (what, _txt(_subst(v, back)) if v is not None else None, kw))
+                elif not r:
+                    bad = (p, v)
+                    break
+            checked += 1
+            if bad is None and undecided:
+                continue  # undecided at this site: reported as analysis error below, after every other site has been decided
+            detail = None
+            if bad is not None:
+                p, v = bad
+                detail = "%s=%s; when %s the constructor leaves .%s = %s" % (
+                    kw, _txt(symbols[sym]), " and ".join(("" if pol else "not ") + "(" + _txt(_subst(t, back)) + ")" for t, pol in p.conds) or "always",
+                    fld, _txt(_subst(v, back)) if v is not None else "<never assigned>")
+            ctx.ob("the constructor argument %s= ends up unchanged in the attribute .%s of the new message" % (kw, fld), bad is None, fi, call, detail=detail)
+    ctx.need(not open_, "; ".join(open_[:4]))
+    ctx.floor("code / token arguments of Message constructions in the stream transport", checked, 1)
+
+
+# ---------------------------------------------------------------------------
 # seeded faults (sensitivity self-test)
 
 F_OPT = "aiocoap/options.py"
@@ -2301,5 +2514,11 @@ R.seed("C15.e", F_OPT, "        self._options.setdefault(option.number, []).appe
 R.seed("C15.h", F_TCP, "        if msg.code.is_response():\n            self._tokenmanager.process_response(msg)", "        if msg.code.is_request():\n            self._tokenmanager.process_response(msg)", "requests and responses swapped")
 R.seed("C15.h", F_TCP, "            if msg.code.is_signalling():\n", "            if msg.code >= 225:\n", "7.00 treated as a request")
 R.seed("C15.h", F_TCP, "(RFC 8323 Section 3.4)\n            return\n", "(RFC 8323 Section 3.4)\n            pass\n", "empty message falls through (the repaired F5 re-introduced; skipped while the tree is unrepaired)")
+
+F_MSG = "aiocoap/message.py"
+R.seed("C15.j", F_MSG, "        self.token = _token\n", "        self.token = token\n", "the decoder's _token= argument is dropped: every received message has an empty token")
+R.seed("C15.j", F_MSG, "            _token = token\n", "            _token = _token\n", "the deprecated token= argument (used for the Pong) is warned about and dropped")
+R.seed("C15.j", F_MSG, "        if code is None:\n", "        if not code:\n", "a frame with code 0.00 becomes a message without code")
+R.seed("C15.j", F_MSG, "            self.code = Code(code)\n", "            self.code = Code(code & 0x1F)\n", "the code class bits are lost in the constructor")
 
 R.seed("C15.i", "aiocoap/tokenmanager.py", "                    lambda request=request, exception=exception: request.add_exception(\n                        exception\n                    )", "                    lambda: request.add_exception(\n                        exception\n                    )", "only the last pending request receives RemoteServerShutdown")
